@@ -648,6 +648,14 @@ func runBehaviour(t *testing.T, in *vio.Input, bi int, b vio.Behaviour, v varian
 				}
 				queued[a.S] = nil
 				if !waitCleanup(a.S, stepTimeout) {
+					if pt, _ := w.waitParked(a.S, "uplink", 0, "relay.uplink.beforePack"); pt == "relay.uplink.beforePack" {
+						// Stop had already swapped the state, yet the session started relaying: not the model's
+						// behaviour; let the property decide (Stop must still return promptly, nothing may leak)
+						res.DriftNote(vio.Finding{Key: "relay.lifecycle/swap-drift", Behaviour: bi, Step: si, Expected: "aborted", Observed: "started",
+							Text: "a session whose initialisation finished after Stop walked the table started relaying"})
+						finish(si)
+						return
+					}
 					brk("aborted initialiser did not clean up")
 					return
 				}
